@@ -44,7 +44,9 @@ pub struct Case {
     pub files: BTreeMap<String, String>,
 }
 
-const FILE_POOL: &[&str] = &["libq", "modw", "sub/exports", "sub/inner", "sub/deep/leaf", "other/exports", "zeta"];
+/// (the last three carry the name of a standard-library module, in a sub-folder: they are project files all the same)
+const FILE_POOL: &[&str] = &["libq", "modw", "sub/exports", "sub/inner", "sub/deep/leaf", "other/exports", "zeta", "sub/list", "other/math", "util/dict"];
+const STD_STEMS: &[&str] = &["list", "math", "dict"];
 
 fn module_plan(t: &mut Tape, p: &Program) -> ModulePlan {
     let n_items = p.blobs.len() + p.enums.len() + p.globals.len();
@@ -65,7 +67,17 @@ fn module_plan(t: &mut Tape, p: &Program) -> ModulePlan {
         let is_start = gi >= 0 && p.var(p.globals[gi as usize].var).name == "start";
         file_of.push(if is_start { 0 } else { t.below(nf) });
     }
-    let style = (0..nf).map(|_| (0..nf).map(|_| t.below(5) as u8).collect()).collect();
+    let mut style: Vec<Vec<u8>> = (0..nf).map(|_| (0..nf).map(|_| t.below(5) as u8).collect()).collect();
+    // a module whose file name is that of a library module cannot be imported under its own name (the preamble binds
+    // `list`, `math`, `dict` in every file): alias or `from` imports only
+    for row in style.iter_mut() {
+        for (to, s) in row.iter_mut().enumerate() {
+            let stem = files[to].rsplit('/').next().unwrap_or("");
+            if STD_STEMS.contains(&stem) && (*s == 0 || *s == 4) {
+                *s = 1;
+            }
+        }
+    }
     let rooted = (0..nf).map(|_| (0..nf).map(|_| t.chance(1, 4)).collect()).collect();
     let paren_lists = t.bool();
     let module_start = if nf > 1 && t.chance(1, 3) { Some(1 + t.below(nf - 1)) } else { None };
